@@ -297,7 +297,11 @@ def dispatch_shape(ck, P, cfg):
             continue
         ck.use_fn(f)
         if m == "fold":
+            # the portable kernel, directly or through the module's thin wrapper of it
             port = f.live_calls(r"crc32::braid::crc32_braid$")
+            if not port:
+                port = [c for c in f.live_calls(r"crc32::crc32_braid$")
+                        if c.callee in P.fns and P.fns[c.callee].live_calls(r"crc32::braid::crc32_braid$")]
             simd = [c.bb for c in f.live_calls(r"pclmulqdq::Accumulator::fold$")]
             ok = bool(port) and flow.reaches_avoiding(f, [0], [port[0].bb], cut_blocks=simd)
             ck.decide(ok, R, "Crc32Fold::fold@" + cfg, "braid kernel reachable when the probe fails", "Crc32Fold::fold cannot reach the portable kernel", where(f))
